@@ -349,6 +349,19 @@ RAW_EXTRA = ("(a)x", "(a)x.y", "[(a)]", "a[(b)]", "[(a)b]", "[a='b(c)']", "[a=[b
              "[a=~/(/]", "[has_child(a)](b)", "a[has_child(,)]", "[has_child(,)]", "[!has_child(&)]", "(a)[0]", "((a)b)", "[.='(']", "[.=')']", "(a)+(b)x", "&a(b)x", "[&a](b)c")
 
 
+# climb and create: a segment that is still iterating a hash / set / list yields a child, the path climbs back with
+# parent() and then names something missing -- the optional-match query creates it IN the collection being iterated
+CLIMB_DOCS = ("{a: {x: 1}, b: {x: 2}}\n", "!!set {a, b}\n", "{k: {a: {x: 1}, b: {x: 2}}, z: 1}\n", "[[1], [2]]\n", "{a: [1, 2], b: [3]}\n",
+              "{a: &n {x: 1}, b: {x: 2}}\n", "!!set {&n a, b}\n")
+CLIMB_HEADS = ("*", "[.^a]", "[.!^z]", "[a:b]", "a*", "**", "*.x", "**.x", "*[x=1]", "*[name()]", "[has_child(x)]", "[!has_child(q)]",
+               "[max(x)]", "[!min(x)]", "&n", "k.*", "k[.!=q]", "k.**", "*[0]", "[.=~/./]", "(*)", "(a)+(b)", "*.*", "k.*.x")
+CLIMB_TAILS = ("[parent()].c", "[parent(2)].c", "[parent()].c.d", "[parent()][5]", "[parent(2)][3]", "[parent()].a.q", "[parent(3)].c")
+
+
+def climb_paths():
+    return [h + t for h in CLIMB_HEADS for t in CLIMB_TAILS]
+
+
 def _raw_strings(lo, hi, nalpha):
     for i in range(lo, hi):
         k, n, out = 0, i, []
@@ -369,6 +382,17 @@ def _work_raw(ranges, seed):
     log = gen.quiet_logger()
     docs = [gen.load(t) for t in RAW_DOCS]
     for (lo, hi) in ranges:
+        if lo < 0:
+            for text in climb_paths():
+                for dtext in CLIMB_DOCS:
+                    proc = Processor(log, gen.load(dtext))          # the query may create nodes: a fresh document each time
+                    r = call_real(lambda: len(list(proc.get_nodes(text, mustexist=False, default_value="D"))))
+                    if r[0] == "crash":
+                        col.witness(_crash_key(r), "get_nodes(mustexist=False) let %s escape (from %s: %s): the path climbs back into a "
+                                    "collection that is being iterated and creates a member there" % (r[1], r[2], r[3]),
+                                    {"doc": dtext, "path": text, "call": "get_nodes(mustexist=False)", "raw": True, "climb": True},
+                                    observed=[r[1], r[2], r[3]], expected="returns, or raises a YAMLPathException")
+                    col.case(("climb", text.split("[parent")[0], text[text.index("[parent"):], dtext[:6], r[0] if r[0] != "ok" else "ok%d" % min(r[1], 2)))
         texts = RAW_EXTRA if lo < 0 else _raw_strings(lo, hi, len(RAW_ALPHA))
         for text in texts:
             try:
@@ -482,6 +506,9 @@ def run(tier="quick", seed=0, jobs=None):
     bounds["raw_text"] = ("every string of length <= %d over the %d-character syntax alphabet %r (%d strings) plus %d curated texts: "
                           "those the parser accepts are evaluated with get_nodes(mustexist=True) on %d fixed documents"
                           % (L, na, RAW_ALPHA, total, len(RAW_EXTRA), len(RAW_DOCS)))
+    bounds["climb_and_create"] = ("%d paths = %d iterating heads x %d tails that climb back with parent() and name a missing key / index, evaluated "
+                                  "with get_nodes(mustexist=False) on fresh copies of %d documents (hash, set, nested hash, list of lists, hash of lists, hash / set with an anchored member)"
+                                  % (len(climb_paths()), len(CLIMB_HEADS), len(CLIMB_TAILS), len(CLIMB_DOCS)))
     bounds.update({"seed": seed, "vocabulary": len(VOCAB), "collector_paths": len(COLLS),
                    "documents": {k: len(v) for k, v in DOCSETS.items()},
                    "index_values": "[i] for i in -9,-4..4,9; bare keys 0,1,2,7,-1,-2,-4", "slice_bounds": "ints -9..9 incl. reversed/equal, and non-integer terms",
